@@ -192,6 +192,10 @@ impl HexEngine {
                     if caught(|| a == b) != Ok(true) {
                         fails.push(("hex.eq".into(), format!("{ra:?} and {rb:?} of the same bytes {} are not equal", hx(bytes))));
                     }
+                    #[allow(clippy::nonminimal_bool)]
+                    if caught(|| a != b || a.ne(b)) != Ok(false) {
+                        fails.push(("hex.eq".into(), format!("{ra:?} != {rb:?} holds for the same bytes {} (while == holds too)", hx(bytes))));
+                    }
                 }
                 // every single-bit difference must break equality (both operand orders)
                 for pos in 0..len {
